@@ -12,6 +12,7 @@ import (
 	"os"
 	"strings"
 	"sync"
+	"sync/atomic"
 	"testing"
 	"time"
 
@@ -606,10 +607,22 @@ func (s stubServer) Run(ctx context.Context) error {
 // errors of different shapes - plain, wrapping a deadline or cancellation of some *inner* context (a start-up probe
 // that timed out), or nil (an early exit). The extension's own context is alive in every case, so every one of them is
 // a start-up failure: /init/error is called once and /event/next never.
+var startupPatienceMs int64 = 10000
+
 func TestStartupFailureKinds(t *testing.T) {
 	rapid.Check(t, func(t *rapid.T) {
 		w := &world{nextCh: make(chan string), nextSeen: make(chan int, 16), subHold: make(chan struct{})}
-		close(w.subHold)
+		// the runtime answers the telemetry subscription (only made with per-invocation flushing) at once or slowly: the
+		// server's failure may then already be waiting when the manager gets to look
+		subDelay := time.Duration(rapid.SampledFrom([]int{0, 0, 150, 300}).Draw(t, "subscription-answered-after-ms")) * time.Millisecond
+		var once sync.Once
+		release := func() { once.Do(func() { close(w.subHold) }) }
+		if subDelay == 0 {
+			release()
+		} else {
+			time.AfterFunc(subDelay, release)
+			defer release()
+		}
 		api := httptest.NewServer(w.lambdaAPI())
 		defer api.Close()
 		kind := rapid.SampledFrom([]string{"plain", "wraps-deadline-exceeded", "wraps-canceled", "bare-deadline-exceeded", "bare-canceled", "nil-early-exit", "joined"}).Draw(t, "error-kind")
@@ -648,8 +661,11 @@ func TestStartupFailureKinds(t *testing.T) {
 				ev.C().Excluded("port-collision-with-another-process", 1)
 				t.Skip("a harness port was taken by another process")
 			}
-		case <-time.After(30 * time.Second):
-			vt.Fail(t, "C20:startup-failure-not-reported", "Run did not return within 30s although the server's Run ended during start-up (%s after %v); log %v", kind, after, describe(w.snapshot()))
+		case <-time.After(time.Duration(atomic.LoadInt64(&startupPatienceMs)) * time.Millisecond):
+			// once this has failed, the attempts rapid makes while minimising the case wait 1.5 s only (a healthy run takes well
+			// under half a second: server failure <= 20 ms, subscription <= 300 ms, allowance 100 ms)
+			atomic.StoreInt64(&startupPatienceMs, 1500)
+			vt.Fail(t, "C20:startup-failure-not-reported", "Run did not return within 10s although the server's Run ended during start-up (%s after %v, subscription answered after %v); log %v", kind, after, subDelay, describe(w.snapshot()))
 		}
 		initErr, nexts := 0, 0
 		for _, e := range w.snapshot() {
@@ -663,6 +679,6 @@ func TestStartupFailureKinds(t *testing.T) {
 		if initErr != 1 || nexts != 0 {
 			vt.Fail(t, "C20:startup-failure-not-reported", "server Run ended during start-up (%s after %v): /init/error called %d times, /event/next requested %d times; log %v", kind, after, initErr, nexts, describe(w.snapshot()))
 		}
-		ev.C().Case(fmt.Sprintf("K|%s|%v|%v", kind, after, manual), kind != "plain", "startup-failure", "error-kind="+kind)
+		ev.C().Case(fmt.Sprintf("K|%s|%v|%v|%v", kind, after, manual, subDelay), kind != "plain", "startup-failure", "error-kind="+kind, fmt.Sprintf("subscription-delay=%v", subDelay))
 	})
 }
